@@ -154,13 +154,16 @@ def fails_fn(clause, w):
     return None
 
 
-def grids(tier):
-    quick = tier == "quick"
+def grids(tier, medium=False):
+    """medium: the middle-sized grids C02 uses for its (5 calls per case) idempotence / mode clauses at thorough"""
+    quick = tier == "quick" or medium
     k, ck = (2, 3) if quick else (3, 4)
     g1 = grid.Grid("G1-text", urlgram.text_slots(k, ck), free=OPT_FREE)
     g2 = grid.Grid("G2-structure", urlgram.structure_slots() + [DP], free=OPT_FREE)
     g3 = grid.Grid("G3-text-pairs", urlgram.text_slots(1, None) + urlgram.structure_slots(), free=OPT_FREE)
-    return [(g1, 1), (g2, 3 if quick else None), (g3, 2 if quick else 3)]
+    if medium and tier != "quick":
+        return [(g1, 1), (g2, 4), (g3, 2)]
+    return [(g1, 1), (g2, 3 if quick else 5), (g3, 2)]
 
 
 def simplifier(g):
@@ -170,7 +173,7 @@ def simplifier(g):
 ALL = grid.Grid("all", urlgram.text_slots(1, None) + urlgram.structure_slots() + [DP], free=OPT_FREE)
 
 
-def explore(chk, prop=PROP, evaluate=evaluate, fails_fn=fails_fn, shrink=None):
+def explore(chk, prop=PROP, evaluate=evaluate, fails_fn=fails_fn, shrink=None, medium=False):
     chk.rule.append(
         "E1: URL grammar grids executed on the real canonicalize_url for every (quoted, strip_fragment) vector: "
         "G1 = every token string (<= k tokens over the full alphabet, <= core_k over the core) in each of the six text "
@@ -182,7 +185,7 @@ def explore(chk, prop=PROP, evaluate=evaluate, fails_fn=fails_fn, shrink=None):
     all_f = []
     tags_total = {}
     n0 = chk.cov["states"]
-    for g, d in grids(chk.tier):
+    for g, d in grids(chk.tier, medium):
         failures, tags = grid.run(chk, g, d, evaluate, shrink=shrink or (ALL.wit, ALL.wsimplify, fails_fn))
         for t, n in tags.items():
             tags_total[t] = tags_total.get(t, 0) + n
